@@ -27,11 +27,12 @@ K_LEAK_ERR = 'CompoundParserSimple return 0 without free xraylib-parser.c:45-319
 K_LEAK_GRP = 'CompoundParserSimple tempBracketAtoms not freed when ca is empty xraylib-parser.c:283-289'
 
 # theorems that must exist (and be axiom-clean) in Props/C07.lean, and the non-vacuity witnesses checked by name
-REQUIRED_THEOREMS = ['parse_print_counts', 'parse_print', 'parse_reorder', 'parse_expand_group',
+REQUIRED_THEOREMS = ['parse_print_counts', 'parse_print', 'parse_elements_ascending', 'parse_reorder', 'parse_expand_group',
                      'parse_rejects_outside_alphabet', 'parse_rejects_unbalanced', 'parse_rejects_invalid',
                      'parse_accepts_weightless', 'parse_rejects_full_fails', 'parse_rejects_full_fixed', 'parse_weightless_nan',
                      'locale_after_call', 'locale_restored_partial', 'locale_restored_full_fails', 'locale_restored_fixed',
-                     'heap_balanced_full_fails', 'heap_leak_leading_group', 'heap_balanced_fixed', 'add_compound_spec']
+                     'heap_balanced_full_fails', 'heap_leak_leading_group', 'heap_leak_count', 'heap_balanced_partial',
+                     'heap_balanced_fixed', 'add_compound_spec', 'symbol_lookup_agrees']
 
 SEEDS = ['H2O', 'Mg(OH)2', 'Fe2.5O', 'He', 'U', '(H)', 'Ca5(PO4)3F', 'C6H12O6', '(NH4)2SO4', 'K4(Fe(CN)6)', 'H.5O',
          'Al2(SO4)3', 'CuSO4(H2O)5', 'Rf', '((H2)3O)0.5', 'NaCl', 'Pb(C2H3O2)2', 'UO2(NO3)2(H2O)6', 'SiO2', 'La1.85Sr.15CuO4']
